@@ -265,7 +265,7 @@ func (StoreLinScenario) Execute(sim *sched.Sim, ci interface{}, prop string, rac
 		sim.Optional[p] = true
 	}
 	sim.RoleOf = roleOf
-	sim.Canon = newCanon().canon
+	useCanon(sim)
 	var st store.Store
 	var db *badger.DB
 	var dir string
